@@ -680,10 +680,18 @@ func replayFile(t *testing.T, path string, corpus bool) {
 		Case     json.RawMessage `json:"case"`
 	}
 	if err := json.Unmarshal(b, &v); err != nil {
+		if corpus { // a damaged corpus file must not break the check: skipped and counted
+			AddCount("regression_corpus_unreadable", 1)
+			return
+		}
 		t.Fatalf("replay: %v", err)
 	}
 	fn, ok := registry[v.Check]
 	if !ok {
+		if corpus { // a case of a check that no longer exists
+			AddCount("regression_corpus_unreadable", 1)
+			return
+		}
 		t.Fatalf("replay: unknown check %q", v.Check)
 	}
 	out := fn(v.Case)
